@@ -35,6 +35,9 @@ Definition o2xx : N := 0.   Definition o4xx : N := 1.   Definition oPanic500 : N
 Definition o5xx : N := 3.   Definition oDead : N := 4.   Definition oHang : N := 5.
 (* the handler did not return within the deadline, the server still answers other requests *)
 Definition oNoAnswer : N := 6.
+(* the request was answered, but afterwards a well-formed throttled request is refused with 503:
+   the request kept the server-wide throttle slot *)
+Definition oSlotKept : N := 7.
 (* expectation attached to a request by the generator *)
 Definition eWellFormed : N := 0.   (* conforms to the documented format *)
 Definition eMalformed : N := 1.    (* the oracle decoder / the format definition rejects it *)
@@ -132,7 +135,7 @@ Definition model_ok (c : c20case) : bool :=
 Definition well_formed_block (data : bytes) : bool := is_ok (ingest_block true data).
 
 Definition req_class (fam expect obs : N) (sentinel named : bool) : nat :=
-  if (obs =? oDead) || (obs =? oHang) then 1%nat
+  if (obs =? oDead) || (obs =? oHang) || (obs =? oSlotKept) then 1%nat
   else if obs =? oNoAnswer then (if expect =? eWellFormed then 1%nat else 3%nat)
   else if (expect =? eWellFormed) && ((obs =? oPanic500) || (obs =? o5xx)) then
     (if fam =? famAnnotationTagSwap then 6%nat else 2%nat)
